@@ -33,7 +33,8 @@ def oracle(c):
         except SyntaxError as e:
             return 'does not parse: %s' % e
         cls = type(c.value)
-        qn = '%s.%s' % (cls.__module__, cls.__qualname__)
+        # classes of the running script are named without a module prefix, always by their qualified name
+        qn = cls.__qualname__ if cls.__module__ == '__main__' else '%s.%s' % (cls.__module__, cls.__qualname__)
         if not (isinstance(tree, ast.Call) and ast.unparse(tree.func) == qn and len(tree.args) <= 1 and not tree.keywords):
             return 'not a call of %s around one literal: %s' % (qn, c.text[:200])
     return None
